@@ -7,6 +7,7 @@ end or `set_instruction_cursor`) simulates `Abs.Machine.step` for every instruct
 register and input-value stacks decode pointwise to the machine's, the frame chains correspond, the store holds the
 program `P`), let the store's extension points answer as the value-level host does (`HostRefines`), and let the
 instruction at the cursor satisfy its side condition (`StepOK`, Model/Runtime/StepDomain.lean). Then (`StepSim`):
+  * every `Decodes` fact of `s` still holds afterwards (`DecKept`: in particular the program's constants stay loaded);
   * if the machine step is `running m'`, the address-level step returns `Running` in a state related to `m'`;
   * if it is `halted m'`, the address-level step returns `End` with data related to `m'` (the Rust does not move the
     cursor when it ends);
@@ -40,7 +41,7 @@ theorem C01_refine_step_end (fuel : Nat) (H : OtherHandlers σ) {s : σ} {m : MS
   have hstep : Abs.step fo host P m = .halted m := by unfold Abs.step; rw [hfetch]
   unfold StepSim
   rw [hstep]
-  exact ⟨s, by rw [executeCurrentInstruction, bind_ok hf]; rfl, hsim.2⟩
+  exact ⟨s, by rw [executeCurrentInstruction, bind_ok hf]; rfl, hsim.2, fun _ _ h => h⟩
 
 /-- ONE STEP of the address-level runtime simulates one step of Abs/Machine -/
 theorem C01_refine_step (L : StoreLaws S) (HR : HostRefines S host) (fuel : Nat) (H : OtherHandlers σ)
